@@ -165,6 +165,11 @@ def run(R, tier, seed, driver_ok):
             flat = dict(pre_params, preprocessor=np.arange(float(len(X))))
             R.case(('c06', name, 'fit', 'preprocessor-without-feature-axis'), True, branch='preprocessor-shape')
             call(R, name, zoo.CLASSES[name](**flat).fit, tuple(ia_), f'{name}.fit/preprocessor-without-feature-axis', 'fit(indicator tuples, 1-D array as preprocessor)', {'est': name, 'method': 'fit', 'malformation': 'preprocessor-without-feature-axis'})
+        # an array preprocessor whose "points" are matrices (3-D array, or the same as nested lists): the formed points / tuples
+        # then have one dimension too many
+        for tag3, pre3 in (('preprocessor-3d-array', np.stack([X, X + 1.0], axis=1)), ('preprocessor-3d-nested-list', np.stack([X, X + 1.0], axis=1).tolist())):
+            R.case(('c06', name, 'fit', tag3), True, branch='preprocessor-shape')
+            call(R, name, zoo.CLASSES[name](**dict(pre_params, preprocessor=pre3)).fit, tuple(ia_), f'{name}.fit/{tag3}', f'fit(indicators, array preprocessor of shape {np.shape(pre3)})', {'est': name, 'method': 'fit', 'malformation': tag3})
         if name.endswith('_Supervised') and name not in ('RCA_Supervised',):
             # a non-finite value in a row that few or no constraints use: an unlabeled row, and few constraints on many rows
             base_p = {k: v for k, v in est.get_params().items() if not (isinstance(v, str) and v == 'deprecated')}
